@@ -905,6 +905,32 @@ def _variant_is(names):
     return f
 
 
+def _from_bytes(order, ty):
+    def f(ev, args, depth):
+        a = deref(args[0])
+        if isinstance(a, SeqVal):
+            a = a.items
+        if not isinstance(a, (tuple, list)) or not all(isinstance(x, int) and not isinstance(x, bool) for x in a):
+            raise Unknown("from_%s_bytes of a non-constant array" % order)
+        bs = list(a) if order == "le" else list(reversed(a))
+        v = 0
+        for i, x in enumerate(bs):
+            v |= (x & 0xFF) << (8 * i)
+        return wrap(v, ty)
+    return f
+
+
+def _saturating(op, ty):
+    def f(ev, args, depth):
+        a, b = deref(args[0]), deref(args[1])
+        if not isinstance(a, int) or not isinstance(b, int):
+            raise Unknown("saturating_%s of non-integers" % op)
+        bits = {"u8": 8, "u16": 16, "u32": 32, "u64": 64, "usize": 64}[ty]
+        v = a + b if op == "add" else (a * b if op == "mul" else a - b)
+        return max(0, min(v, (1 << bits) - 1))
+    return f
+
+
 STD_MODELS = {
     "core::slice::index::<impl std::ops::Index<I> for [T]>::index": _slice_index,
     "std::result::Result::<T, E>::is_ok": _variant_is(("Ok",)),
@@ -949,6 +975,18 @@ STD_MODELS = {
     "core::num::<impl u32>::checked_sub": _checked("sub", "u32"),
     "core::num::<impl u32>::checked_mul": _checked("mul", "u32"),
     "core::num::<impl usize>::saturating_sub": _saturating_sub,
+    "core::num::<impl usize>::saturating_mul": _saturating("mul", "usize"),
+    "core::num::<impl usize>::saturating_add": _saturating("add", "usize"),
+    "core::num::<impl u32>::saturating_mul": _saturating("mul", "u32"),
+    "core::num::<impl u32>::saturating_add": _saturating("add", "u32"),
+    "core::num::<impl u32>::saturating_sub": _saturating("sub", "u32"),
+    "core::num::<impl u64>::saturating_mul": _saturating("mul", "u64"),
+    "core::num::<impl u32>::from_le_bytes": _from_bytes("le", "u32"),
+    "core::num::<impl u32>::from_be_bytes": _from_bytes("be", "u32"),
+    "core::num::<impl u16>::from_le_bytes": _from_bytes("le", "u16"),
+    "core::num::<impl u16>::from_be_bytes": _from_bytes("be", "u16"),
+    "core::num::<impl u64>::from_le_bytes": _from_bytes("le", "u64"),
+    "core::num::<impl usize>::from_le_bytes": _from_bytes("le", "usize"),
     "core::num::<impl usize>::wrapping_add": _wrapping("add", "usize"),
     "core::num::<impl usize>::wrapping_sub": _wrapping("sub", "usize"),
     "core::num::<impl u8>::wrapping_add": _wrapping("add", "u8"),
